@@ -1,7 +1,5 @@
 package csm
 
-import "time"
-
 const (
 	NLastDayOfMonth = 1
 	NWeekday        = 2
@@ -43,22 +41,23 @@ func (n *DayNode) Value() int {
 	return n.c.Value()
 }
 
-func (n *DayNode) Reset() {
-	n.c.value = n.c.min
-	n.findForward()
+// Reset sets the node to the first valid day of the current month.
+// It returns true if the current month has no valid day.
+func (n *DayNode) Reset() (overflowed bool) {
+	n.c.value = n.c.min - 1
+	return n.Next()
 }
 
+// Next moves the node to the next valid day of the current month.
+// It returns true if the current month has no later valid day.
 func (n *DayNode) Next() (overflowed bool) {
+	if n.n != 0 {
+		return n.nextDayN()
+	}
 	if n.isWeekday() {
-		if n.n == 0 {
-			return n.nextWeekday()
-		}
-		return n.nextWeekdayN()
+		return n.nextWeekday()
 	}
-	if n.n == 0 {
-		return n.nextDay()
-	}
-	return n.nextDayN()
+	return n.nextDay()
 }
 
 func (n *DayNode) nextWeekday() (overflowed bool) {
@@ -75,12 +74,15 @@ func (n *DayNode) nextWeekday() (overflowed bool) {
 		}
 	}
 
-	// if the end of the values array is reached set to the first valid value
-	return n.addDays(offset)
+	if n.c.value+offset > n.max() {
+		return true
+	}
+	n.c.value += offset
+	return false
 }
 
 func (n *DayNode) nextDay() (overflowed bool) {
-	return n.c.Next()
+	return n.c.Next() || n.c.value > n.max()
 }
 
 func (n *DayNode) findForward() result {
@@ -94,6 +96,10 @@ func (n *DayNode) findForward() result {
 }
 
 func (n *DayNode) isValid() bool {
+	if n.n != 0 {
+		day, ok := n.dayN()
+		return ok && n.c.value == day
+	}
 	withinLimits := n.isValidDay()
 	if n.isWeekday() {
 		withinLimits = withinLimits && n.isValidWeekday()
@@ -118,135 +124,43 @@ func (n *DayNode) getWeekday() int {
 	return int(date.Weekday())
 }
 
-func (n *DayNode) addDays(offset int) (overflowed bool) {
-	overflowed = n.Value()+offset > n.max()
-	today := makeDateTime(n.year.Value(), n.month.Value(), n.c.value)
-	newDate := today.AddDate(0, 0, offset)
-	n.c.value = newDate.Day()
-	return
-}
-
 func (n *DayNode) max() int {
-	month := time.Month(n.month.Value())
-	year := n.year.Value()
-
-	if month == time.December {
-		month = 1
-		year++
-	} else {
-		month++
-	}
-
-	date := makeDateTime(year, int(month), 0)
-	return date.Day()
+	return lastDayOfMonth(n.year.Value(), n.month.Value())
 }
 
+// nextDayN moves to the day selected by the L, W or # rule if it lies
+// after the current day of the current month.
 func (n *DayNode) nextDayN() (overflowed bool) {
+	day, ok := n.dayN()
+	if !ok || n.c.value >= day {
+		return true
+	}
+	n.c.value = day
+	return false
+}
+
+// dayN returns the only day of the current month selected by the L, W or #
+// rule of the node, or false if the month has no such day.
+func (n *DayNode) dayN() (int, bool) {
+	year, month := n.year.Value(), n.month.Value()
+	last := lastDayOfMonth(year, month)
 	switch {
-	case n.n > 0 && n.n&NWeekday != 0:
-		n.nextWeekdayOfMonth()
-	default:
-		n.nextLastDayOfMonth()
-	}
-	return
-}
-
-func (n *DayNode) nextWeekdayOfMonth() {
-	year := n.year.Value()
-	month := n.month.Value()
-
-	monthLastDate := lastDayOfMonth(year, month)
-	date := n.c.values[0]
-	if date > monthLastDate || n.n&NLastDayOfMonth != 0 {
-		date = monthLastDate
-	}
-
-	monthDate := makeDateTime(year, month, date)
-	closest := closestWeekday(monthDate)
-	if n.c.value >= closest {
-		n.c.value = 0
-		n.advanceMonth()
-		n.nextWeekdayOfMonth()
-		return
-	}
-
-	n.c.value = closest
-}
-
-func (n *DayNode) nextLastDayOfMonth() {
-	year := n.year.Value()
-	month := n.month.Value()
-
-	firstDayOfMonth := makeDateTime(year, month, 1)
-	offset := n.n
-	if offset == NLastDayOfMonth {
-		offset = 0
-	}
-	dayOfMonth := firstDayOfMonth.AddDate(0, 1, offset-1)
-
-	if n.c.value >= dayOfMonth.Day() {
-		n.c.value = 0
-		n.advanceMonth()
-		n.nextLastDayOfMonth()
-		return
-	}
-
-	n.c.value = dayOfMonth.Day()
-}
-
-func (n *DayNode) nextWeekdayN() (overflowed bool) {
-	n.c.value = n.getDayInMonth(n.daysOfWeekInMonth())
-	return
-}
-
-func (n *DayNode) getDayInMonth(dates []int) int {
-	if n.n > len(dates) {
-		n.advanceMonth()
-		return n.getDayInMonth(n.daysOfWeekInMonth())
-	}
-
-	var dayInMonth int
-	if n.n > 0 {
-		dayInMonth = dates[n.n-1]
-	} else {
-		dayInMonth = dates[len(dates)-1]
-	}
-
-	if n.c.value >= dayInMonth {
-		n.c.value = 0
-		n.advanceMonth()
-		return n.getDayInMonth(n.daysOfWeekInMonth())
-	}
-
-	return dayInMonth
-}
-
-func (n *DayNode) advanceMonth() {
-	if n.month.Next() {
-		_ = n.year.Next()
-	}
-}
-
-func (n *DayNode) daysOfWeekInMonth() []int {
-	year := n.year.Value()
-	month := n.month.Value()
-
-	// the day of week specified for the node
-	weekday := n.weekdayValues[0]
-
-	dates := make([]int, 0, 5)
-	// iterate through all the days of the month
-	for day := 1; ; day++ {
-		currentDate := makeDateTime(year, month, day)
-		// stop if we have reached the next month
-		if currentDate.Month() != time.Month(month) {
-			break
+	case n.isWeekday() && n.n > 0: // n-th weekday of the month
+		first := makeDateTime(year, month, 1)
+		day := 1 + (n.weekdayValues[0]-int(first.Weekday())+7)%7 + 7*(n.n-1)
+		return day, day <= last
+	case n.isWeekday(): // last weekday of the month
+		lastDate := makeDateTime(year, month, last)
+		return last - (int(lastDate.Weekday())-n.weekdayValues[0]+7)%7, true
+	case n.n&NWeekday != 0 && n.n > 0: // closest weekday
+		date := n.c.values[0]
+		if date > last || n.n&NLastDayOfMonth != 0 {
+			date = last
 		}
-		// check if the current day is the required day of the week
-		if int(currentDate.Weekday()) == weekday {
-			dates = append(dates, day)
-		}
+		return closestWeekday(makeDateTime(year, month, date)), true
+	case n.n == NLastDayOfMonth:
+		return last, true
+	default: // L-n
+		return last + n.n, last+n.n >= 1
 	}
-
-	return dates
 }
